@@ -30,7 +30,7 @@ struct Options {
 
 struct Verdict { bool ok = true; std::string sig, detail; };
 
-struct ServerEv { int64_t t; std::string server; bool success; int flags; };
+struct ServerEv { int64_t t; std::string server; bool success; int flags; uint64_t ev; };
 
 struct Sim {
   World w;
@@ -47,6 +47,7 @@ struct Sim {
   size_t steps = 0, drain_steps = 0; bool stuck = false; bool budget_exhausted = false; bool astronomic = false;
   size_t c07_checks = 0, c07_multi = 0;
   std::vector<int64_t> reconfig_times;     // set_servers / reinit instants (cache must be empty afterwards)
+  struct ServerSet { uint64_t ev; std::vector<std::string> list; }; std::vector<ServerSet> server_sets;   // configured lists over time (address strings as the library prints them)
   std::vector<uint64_t> reconfig_ticks; uint64_t tick = 0;   // logical order of events within one virtual instant
   struct TimeoutObs { int64_t t; long sec, usec; bool has; };
   std::vector<TimeoutObs> timeout_obs;
@@ -148,7 +149,7 @@ struct Sim {
     a->sim->completed(r, status, timeouts);
   }
   static void cb_sockstate(void *data, ares_socket_t fd, int r, int wv) { World::s_sock_state(data, fd, r, wv); }
-  static void cb_server_state(const char *server, ares_bool_t success, int flags, void *data) { Sim *s = (Sim *)data; s->server_events.push_back({s->w.now_us, server ? server : "", success == ARES_TRUE, flags}); }
+  static void cb_server_state(const char *server, ares_bool_t success, int flags, void *data) { Sim *s = (Sim *)data; s->server_events.push_back({s->w.now_us, server ? server : "", success == ARES_TRUE, flags, ++s->w.evseq}); }
   static void cb_pending_write(void *data) { ((Sim *)data)->pending_write_flag = true; }
 
   // ------------------------------------------------------------------ request start
@@ -242,6 +243,7 @@ struct Sim {
     std::string csv; w.servers.resize(std::max(w.servers.size(), specs.size()));
     size_t n = 0;
     for (auto &s : specs) { Addr a; if (!Addr::parse(s, a)) continue; if (n >= w.servers.size()) w.servers.resize(n + 1); w.servers[n].addr = a; if (w.servers[n].source.b[0] == 0) { Addr src; src.family = a.family; if (a.family == AF_INET) { src.b[0] = 192; src.b[1] = 168; src.b[2] = 1; src.b[3] = (unsigned char)(10 + n); } else { src.b[0] = 0xfd; src.b[1] = 0x01; src.b[15] = (unsigned char)(10 + n); } w.servers[n].source = src; } if (!csv.empty()) csv += ","; csv += a.str(); n++; }
+    { ServerSet ss; ss.ev = ++w.evseq; std::istringstream a(csv); std::string x; while (std::getline(a, x, ',')) if (std::find(ss.list.begin(), ss.list.end(), x) == ss.list.end()) ss.list.push_back(x); server_sets.push_back(ss); }
     if (ch) { int rc = ares_set_servers_ports_csv(ch, csv.c_str()); if (rc != ARES_SUCCESS) notes.push_back("set_servers failed"); char *got = ares_get_servers_csv(ch); notes.push_back("servers set to " + csv + " -> library reports " + (got ? got : "NULL"));
       // the configured set must be exactly what was given (order follows the failure sort, so compare as sets)
       std::set<std::string> want, have; { std::istringstream a(csv); std::string x; while (std::getline(a, x, ',')) want.insert(x); } if (got) { std::istringstream a(got); std::string x; while (std::getline(a, x, ',')) have.insert(x); }
